@@ -366,6 +366,140 @@ async fn run_fault(core: &'static Core, proto: VProto, so: &[usize], si: &[usize
     Ok((problems, note))
 }
 
+/// Pipe.tla under frequent timer expiries (TimedOut of the silent direction drops the busy direction's pending read /
+/// wait_writable future and restarts it): one direction streams `total` position-coded bytes in paced chunks while the
+/// other is silent, with a tunnel idle timeout of a few milliseconds. Sources and sinks of the real endpoints must be
+/// cancel-safe (Pipe.tla assumes it of every endpoint): what arrives is a correct prefix, and if the tunnel was not ended
+/// by the idle timer, everything arrives and ends cleanly. Returns (bytes the reader got, clean end, expiries of one direction).
+async fn run_ticks(core: &'static Core, proto: VProto, up: bool, total: usize, chunk: usize) -> Result<(Vec<u8>, bool, u64, String), String> {
+    let listener = TcpListener::bind("127.0.0.1:0").await.map_err(|e| e.to_string())?;
+    let port = listener.local_addr().unwrap().port();
+    let (client, server) = tokio::io::duplex(1 << 16);
+    trusttunnel::verif::start_recording();
+    let tunnel = tokio::spawn(async move {
+        let _ = serve_tunnel(core, proto, server, peer_addr(), "localhost".into(), None).await;
+    });
+    let target = format!("127.0.0.1:{}", port);
+    let to = Duration::from_secs(20);
+    enum C { H1(tokio::io::DuplexStream), H2(h2::SendStream<Bytes>, h2::RecvStream, tokio::task::JoinHandle<()>) }
+    let mut c = match proto {
+        VProto::Http1 => {
+            let mut io = client;
+            h1_send(&mut io, &h1_request("CONNECT", &target, None, &[])).await.map_err(|e| e.to_string())?;
+            let mut buf = Vec::new();
+            let mut tmp = [0u8; 1];
+            while !buf.ends_with(b"\r\n\r\n") {
+                let n = tokio::time::timeout(to, io.read(&mut tmp)).await.map_err(|_| "no CONNECT response")?.map_err(|e| e.to_string())?;
+                if n == 0 { return Err("connection closed before the CONNECT response".into()); }
+                buf.push(tmp[0]);
+            }
+            if parse_h1_heads(&buf).0.first().map(|h| h.status) != Some(200) { return Err("CONNECT not answered 200".into()); }
+            C::H1(io)
+        }
+        _ => {
+            let (mut send, conn) = tokio::time::timeout(to, h2::client::handshake(client)).await.map_err(|_| "h2 handshake")?.map_err(|e| e.to_string())?;
+            let ct = tokio::spawn(async move { let _ = conn.await; });
+            let r = http::Request::builder().method("CONNECT").uri(target.as_str()).body(()).unwrap();
+            std::future::poll_fn(|cx| send.poll_ready(cx)).await.map_err(|e| e.to_string())?;
+            let (resp, stream) = send.send_request(r, false).map_err(|e| e.to_string())?;
+            let resp = tokio::time::timeout(to, resp).await.map_err(|_| "no CONNECT response")?.map_err(|e| e.to_string())?;
+            if resp.status() != 200 { return Err("CONNECT not answered 200".into()); }
+            C::H2(stream, resp.into_body(), ct)
+        }
+    };
+    let (mut peer, _) = tokio::time::timeout(to, listener.accept()).await.map_err(|_| "destination saw no connection")?.map_err(|e| e.to_string())?;
+    let salt = if up { 7 } else { 101 };
+    let mut got: Vec<u8> = Vec::with_capacity(total);
+    let mut clean = false;
+    let mut note = String::new();
+    let pace = Duration::from_millis(1);
+    if up {
+        // client writes, destination reads
+        let reader = tokio::spawn(async move {
+            let mut got = Vec::new();
+            let mut b = vec![0u8; 65536];
+            let mut clean = false;
+            loop {
+                match tokio::time::timeout(Duration::from_secs(10), peer.read(&mut b)).await {
+                    Ok(Ok(0)) => { clean = true; break; }
+                    Ok(Ok(n)) => got.extend_from_slice(&b[..n]),
+                    _ => break,
+                }
+            }
+            (got, clean)
+        });
+        let mut sent = 0;
+        while sent < total {
+            let n = chunk.min(total - sent);
+            let data = payload(sent, n, salt);
+            let r: Result<(), String> = match &mut c {
+                C::H1(io) => io.write_all(&data).await.map_err(|e| e.to_string()),
+                C::H2(s, _, _) => {
+                    let mut data = Bytes::from(data);
+                    let mut r = Ok(());
+                    while !data.is_empty() {
+                        s.reserve_capacity(data.len());
+                        match tokio::time::timeout(to, std::future::poll_fn(|cx| s.poll_capacity(cx))).await {
+                            Ok(Some(Ok(cap))) => { let part = data.split_to(cap.min(data.len())); if let Err(e) = s.send_data(part, false) { r = Err(e.to_string()); break; } }
+                            _ => { r = Err("no h2 send capacity".into()); break; }
+                        }
+                    }
+                    r
+                }
+            };
+            if let Err(e) = r { note = format!("client write stopped after {} bytes: {}", sent, e); break; }
+            sent += n;
+            tokio::time::sleep(pace).await;
+        }
+        match &mut c { C::H1(io) => { let _ = io.shutdown().await; } C::H2(s, _, _) => { let _ = s.send_data(Bytes::new(), true); } }
+        if let Ok((g, cl)) = reader.await { got = g; clean = cl; }
+    } else {
+        // destination writes, client reads
+        let writer = tokio::spawn(async move {
+            let mut sent = 0;
+            while sent < total {
+                let n = chunk.min(total - sent);
+                if peer.write_all(&payload(sent, n, salt)).await.is_err() { break; }
+                sent += n;
+                tokio::time::sleep(pace).await;
+            }
+            let _ = peer.shutdown().await;
+            // keep the connection until the relay is done with it
+            let mut b = [0u8; 16];
+            let _ = tokio::time::timeout(Duration::from_secs(5), peer.read(&mut b)).await;
+            sent
+        });
+        loop {
+            match &mut c {
+                C::H1(io) => {
+                    let mut b = vec![0u8; 65536];
+                    match tokio::time::timeout(Duration::from_secs(10), io.read(&mut b)).await {
+                        Ok(Ok(0)) => { clean = true; break; }
+                        Ok(Ok(n)) => got.extend_from_slice(&b[..n]),
+                        Ok(Err(e)) => { note = format!("client read: {}", e); break; }
+                        Err(_) => { note = "client read stalled for 10 s".into(); break; }
+                    }
+                }
+                C::H2(_, r, _) => match tokio::time::timeout(Duration::from_secs(10), r.data()).await {
+                    Ok(None) => { clean = true; break; }
+                    Ok(Some(Ok(b))) => { let _ = r.flow_control().release_capacity(b.len()); got.extend_from_slice(&b); }
+                    Ok(Some(Err(e))) => { note = format!("client stream: {}", e); break; }
+                    Err(_) => { note = "client read stalled for 10 s".into(); break; }
+                },
+            }
+        }
+        match &mut c { C::H1(io) => { let _ = io.shutdown().await; } C::H2(s, _, _) => { let _ = s.send_data(Bytes::new(), true); } }
+        let _ = writer.await;
+    }
+    if let C::H2(_, _, ct) = c { ct.abort(); }
+    let _ = tokio::time::timeout(Duration::from_secs(3), tunnel).await;
+    let ev = trusttunnel::verif::stop_recording();
+    let ticks = ev.iter().filter(|l| l.contains("\"ev\":\"XC\"")).count() as u64;
+    let expired = ev.iter().any(|l| l.contains("\"ev\":\"XC\"") && l.contains("\"expired\":true"));
+    if expired { note = format!("ended by the idle timer; {}", note); }
+    Ok((got, clean && !expired, ticks, note))
+}
+
 fn main() {
     quiet_panics();
     logcap::install();
@@ -458,6 +592,49 @@ fn main() {
                     }
                 }
             }
+        }
+    }
+    // frequent expiries on real endpoints (Pipe.tla TimedOut interleaved everywhere; the endpoints' cancel-safety)
+    if arg("--ticks").is_some() {
+        let total = 512 * 16384;
+        let rounds = if tier_thorough() { 4 } else { 1 };
+        for _round in 0..rounds {
+        for proto in [VProto::Http1, VProto::Http2] {
+            for up in [true, false] {
+                for t_ms in [3u64, 7] {
+                    let core: &'static Core = Box::leak(Box::new(make_core(&CoreOpts { allow_private: true, tcp_timeout: Duration::from_millis(t_ms), ..Default::default() })));
+                    let pname = if proto == VProto::Http1 { "h1" } else { "h2" };
+                    let dir = if up { "upload" } else { "download" };
+                    let desc = json!({"kind": "ticks", "proto": pname, "direction": dir, "idle_timeout_ms": t_ms, "bytes": total});
+                    rep.eval();
+                    let d2 = desc.clone();
+                    watchdog::enter(move || ("pipe-e2e-ticks:hang".into(), "scenario did not finish".into(), d2));
+                    let r = rt.block_on(run_ticks(core, proto, up, total, 16384));
+                    watchdog::leave();
+                    match r {
+                        Err(e) => rep.violation_with(format!("pipe-e2e-ticks:{}:{}:setup", pname, dir), e, || desc.clone()),
+                        Ok((got, clean, ticks, note)) => {
+                            rep.count("tick_expiries", ticks);
+                            let salt = if up { 7 } else { 101 };
+                            // whatever arrived must be a correct prefix: an expiry never loses, repeats or reorders bytes
+                            let bad = (0..got.len()).find(|i| got[*i] != code(*i, salt));
+                            if let Some(i) = bad {
+                                rep.violation_with(format!("pipe-e2e-ticks:{}:{}:data", pname, dir), format!("byte {} of the relayed stream differs from what was sent ({} expiries of the silent direction so far in this tunnel)", i, ticks),
+                                    || json!({"scenario": desc, "first_difference": i, "delivered": got.len(), "note": note}));
+                            } else if note.starts_with("ended by the idle timer") {
+                                rep.count("tick_runs_ended_by_idle_timer", 1); // a scheduling pause longer than 2T: inconclusive for the end, the prefix was checked
+                            } else if got.len() != total || !clean {
+                                rep.violation_with(format!("pipe-e2e-ticks:{}:{}:end", pname, dir), format!("{} of {} bytes delivered, clean end: {} ({} expiries; {})", got.len(), total, clean, ticks, note),
+                                    || json!({"scenario": desc, "delivered": got.len(), "clean_end": clean, "note": note}));
+                            } else {
+                                rep.count("tick_runs_complete", 1);
+                                if ticks >= 10 { rep.nontrivial(format!("ticks|{}|{}|{}", pname, dir, t_ms)); }
+                            }
+                        }
+                    }
+                }
+            }
+        }
         }
     }
     rep.finish(&out_path);
